@@ -13,6 +13,7 @@
  *            before the threads start so that index `base` is the next message.
  *            lim = how far (in messages) the writers may run ahead of the slowest
  *            unfinished reader; the documented no-lapping precondition is lim <= cap-1.
+ *       spurious-futex <permille>            (after conf) a parked futex wait may return -1/EINTR
  *       sched random <seed> | pct <seed> <depth> | replay <tokens...> | prefix <tokens...>
  *            (prefix: replay the tokens, then continue non-preemptively; prints the candidate
  *             sets, used by vlib.explore_schedules)
@@ -134,6 +135,7 @@ static int setup(void)
 	return 0;
 }
 
+static int g_fx;
 static int g_pol; static uint64_t g_seed; static int g_depth; static char g_replay[1 << 18];
 
 static void vh_op(int argc, char **argv)
@@ -151,7 +153,7 @@ static void vh_op(int argc, char **argv)
 	if (!strcmp(argv[0], "conf") && argc == 9) {
 		g_capreq = atoi(argv[1]); g_flag = atoi(argv[2]); g_W = atoi(argv[3]); g_R = atoi(argv[4]);
 		g_nw = atoi(argv[5]); g_nr = atoi(argv[6]); g_base = (uint32_t)vh_ull(argv[7]); g_lim = atoi(argv[8]);
-		g_pol = 0; g_seed = 1;
+		g_pol = 0; g_seed = 1; g_fx = 0;
 		g_conf_ok = g_capreq >= 1 && g_capreq <= 64 && g_W >= 0 && g_W <= MAXW && g_R >= 0 && g_R <= MAXR &&
 					g_nw >= 0 && g_nw <= 99 && g_nr >= 0 && g_nr <= 128 && g_lim >= 0 && g_flag >= 0;
 		if (g_conf_ok) {
@@ -162,6 +164,10 @@ static void vh_op(int argc, char **argv)
 		}
 		printf(g_conf_ok ? "ok\n" : "bad-op\n");
 		return;
+	}
+	if (!strcmp(argv[0], "spurious-futex") && argc == 2) {
+		if (!g_conf_ok) { printf("bad-op\n"); return; }
+		g_fx = atoi(argv[1]); printf("ok\n"); return;
 	}
 	if (!strcmp(argv[0], "sched") && argc >= 2) {
 		if (!strcmp(argv[1], "random") && argc == 3) { g_pol = 0; g_seed = vh_ull(argv[2]); }
@@ -179,6 +185,7 @@ static void vh_op(int argc, char **argv)
 		else if (g_pol == 1) vs_policy_pct(g_seed, g_depth);
 		else if (g_pol == 3) { vs_policy_prefix(g_replay); vs_trace_enabled(1); }
 		else vs_policy_replay(g_replay);
+		vs_set_spurious_futex(g_fx);
 		vs_set_max_steps(8000);
 		vs_run();
 		vs_print(stdout);
